@@ -213,3 +213,115 @@ def run(ctx, R):
                 if any((x.get("callee") or "") == hook for x in walk(n["then"]) if x["k"] == "Call"):
                     tags |= VAR_TAGS
         R.ob("C10:variable-arms:%s" % helper, VAR_TAGS <= tags, "%s binds through the hook for tags %s; all of %s are needed" % (helper, sorted(tags), sorted(VAR_TAGS)), F.where(cands[0]))
+
+    # ---- a bind or unification through the occurs-check unifier can FAIL; the instruction handler that made it must
+    # look at the fail flag before it steps to the next instruction (p += 1), or the failure is acted on one instruction
+    # late — after an enclosing if-then-else has cut, inside \+, or after findall has copied a "solution"
+    FRESH_ONLY = {
+        "put_unsafe_value_instr": "binds a fresh heap cell to an unbound permanent variable of the current frame (the value is a variable: nothing to check)",
+        "set_local_value_instr": "binds a fresh heap cell to an unbound stack variable (the value is a variable: nothing to check)",
+    }
+    n_oc = 0
+    for p, it in sorted(F.items.items()):
+        if it["file"] != "src/machine/dispatch.rs" or it["kind"] != "AssocFn" or not p.endswith("_instr"):
+            continue
+        ph = F.hir(p)
+        nm = p.rsplit("::", 1)[-1]
+
+        def rec(node, later_tests_fail):
+            """walk blocks; `later_tests_fail`: some statement after the current one (in this or an enclosing block, before
+            the function's final step) reads self.fail"""
+            nonlocal n_oc
+            if isinstance(node, list):
+                for x in node:
+                    rec(x, later_tests_fail)
+                return
+            if not isinstance(node, dict):
+                return
+            if node.get("k") == "Block":
+                ss = list(node.get("stmts", [])) + ([node["expr"]] if "expr" in node else [])
+                for i, s in enumerate(ss):
+                    after = any(x["k"] == "Field" and x["name"] == "fail" for s2 in ss[i + 1:] for x in walk(s2) if not _is_assign_target(x, s2))
+                    rec_stmt(s, later_tests_fail or after)
+                return
+            for k, v in node.items():
+                if k != "mac" and isinstance(v, (dict, list)):
+                    rec(v, later_tests_fail)
+
+        def rec_stmt(s, tested_later):
+            nonlocal n_oc
+            if s.get("k") == "Block":
+                rec(s, tested_later)
+                return
+            for x in walk_shallow_calls(s):
+                r = x.get("resolved") or x.get("callee") or ""
+                if re.search(r"OccursCheckImpl::(bind|unify)$", r):
+                    n_oc += 1
+                    if nm in FRESH_ONLY:
+                        R.ob("C10:occurs-check-failure-acted-on:%s:exception" % nm, True, "listed: " + FRESH_ONLY[nm], F.where(p))
+                    else:
+                        R.ob("C10:occurs-check-failure-acted-on:%s@%d" % (nm, x["ln"] - it["line"]), tested_later,
+                             "%s binds/unifies through the occurs-check unifier at line %s and never looks at the fail flag before stepping to the next instruction: with "
+                             "occurs_check = true a failed check is acted on one instruction late (( p(A,A) -> yes ; no ) with p(X, f(X)) runs neither branch)" % (nm, x["ln"]), F.where(p))
+            # descend into nested blocks with the same "tested later" knowledge
+            for k, v in s.items():
+                if k != "mac" and isinstance(v, (dict, list)):
+                    rec(v, tested_later)
+
+        rec(ph["body"], False)
+    R.floor("occurs-check binds/unifications in instruction handlers", n_oc, 6)
+    R.floor("instruction handlers using the raw binder", raw_binds(F, R), 3)
+
+
+def _is_assign_target(x, stmt):
+    return stmt.get("k") == "Assign" and stmt.get("lhs") is x
+
+
+def walk_shallow_calls(s):
+    """calls in a statement that are not inside a nested Block (those are visited with their own block context)"""
+    out = []
+
+    def go(n):
+        if isinstance(n, list):
+            for y in n:
+                go(y)
+            return
+        if not isinstance(n, dict):
+            return
+        if n.get("k") == "Block":
+            return
+        if n.get("k") in ("Call", "MethodCall"):
+            out.append(n)
+        for k, v in n.items():
+            if k != "mac" and isinstance(v, (dict, list)):
+                go(v)
+    if s.get("k") == "Block":
+        return out
+    go(s)
+    return out
+
+
+RAW_BIND_OK = {
+    "get_list_instr": "binds the argument variable to the list cell about to be built in write mode: its cells are fresh, they cannot contain the variable",
+    "get_partial_string_instr": "binds the argument variable to the packed string about to be built: fresh cells",
+    "get_structure_instr": "binds the argument variable to the structure about to be built in write mode: fresh cells",
+}
+
+
+def raw_binds(F, R, prefix="C10"):
+    """Instruction handlers bind through the occurs-check unifier (occurs_check.bind); the raw binder MachineState::bind
+    ignores the occurs_check flag. Raw binds are allowed only where the value is a structure that is about to be built."""
+    n = 0
+    for p, it in sorted(F.items.items()):
+        if it["file"] != "src/machine/dispatch.rs" or it["kind"] != "AssocFn" or not p.endswith("_instr"):
+            continue
+        nm = p.rsplit("::", 1)[-1]
+        lines = [x["ln"] for x in walk(F.hir(p)["body"]) if x["k"] in ("Call", "MethodCall") and re.search(r"MachineState>?::bind$", x.get("resolved") or x.get("callee") or "")]
+        if not lines:
+            continue
+        n += 1
+        R.ob("%s:raw-bind-in-instruction-handler:%s" % (prefix, nm), nm in RAW_BIND_OK,
+             ("listed: " + RAW_BIND_OK[nm]) if nm in RAW_BIND_OK else
+             "%s binds with MachineState::bind at line(s) %s: the raw binder performs no occurs check, so with occurs_check = true/error head unification through this "
+             "instruction builds a cyclic term silently; bind through self.occurs_check.bind" % (nm, lines), F.where(p))
+    return n
